@@ -114,7 +114,7 @@ CLAIMED = {
              "architecture and languages are independent halves of the template.  Creation times are C18.  Non-UTF-8 pages: the "
              "theorem's hypothesis is representability (ps_cp = UTF-8 in the model); all 26 pages are exercised on the "
              "implementation with strings from each repertoire, getters compared before/after reopen and the raw stream parsed by "
-             "an independent property-set parser.  One known finding (architecture text containing ';').",
+             "an independent property-set parser.  One known finding (architecture text containing ';').  A summary change reaches the next save from ANY package state, incl. the one a failed save leaves behind (C10_summary_change_reaches_next_save, C10_summary_mut_arms; SUMMARY_MUT_ARMS regenerated); histories with a failing save followed by summary changes and a successful save.",
         note="Trusted: Coq kernel, translator (PROPSET_* flags, property ids), extraction, harness, tools/psdec.py (independent parser).",
         technique="Coq proof (byte-level codec round trip by induction over the property list, lia) + correspondence + independent parser",
         design="4 C10"),
@@ -127,7 +127,7 @@ CLAIMED = {
              "no stream call panics for ANY string; remove_digital_signature removes exactly the two signature entries.  "
              "Packing ranges and reserved characters are regenerated from streamname.rs.  Correspondence: single names over a "
              "150-character critical set, pairs, boundary lengths 29..33 units, histories interleaved with table operations and "
-             "reopen, contents across the 4096-byte mini-stream cutoff, signature streams added with the cfb crate.",
+             "reopen, contents across the 4096-byte mini-stream cutoff, signature streams added with the cfb crate.  Files with sub-storages below the root (streams inside them are not streams of the package).",
         note="Trusted: Coq kernel, translator, extraction, harness; cfb modelled as a name->bytes map whose comparison upper-cases "
              "ASCII only (non-ASCII case pairs are outside the model and excluded by the property's own wording).",
         technique="Coq proof (induction over names / entry lists; finite checks by vm_compute) + correspondence",
@@ -151,7 +151,7 @@ CLAIMED = {
              "modelling step and the sector level of cfb are tied to the code by the counting medium: after random histories "
              "the saved bytes are opened on a fresh medium, every read operation is used, the session is closed in each of the "
              "three ways: 0 write calls and identical bytes required.  Partial: the no-write claim below the stream level (cfb) "
-             "is observed, not proved.",
+             "is observed, not proved.  The same sessions also through the path-based entry points msi::open_rw / msi::open on a file (bytes compared).",
         note="Trusted: Coq kernel, extraction, harness (counting Read+Write+Seek medium).",
         technique="Coq proof (case analysis on the package state machine) + write-counting correspondence",
         design="4 C16"),
@@ -198,7 +198,7 @@ CLAIMED = {
              "the source on every run (GenIo.v) and pinned by C15_discipline.  PARTIAL: cfb's sector/FAT/directory writes are "
              "below the model; the tie for them is the fault enumeration on the real medium: for 4 scripts x 2 close modes every "
              "sampled (thorough: every) write index fails once / from then on; all-Ok runs must reopen to the reference state; no "
-             "panic.",
+             "panic.  Sequences of container operations inside one call report every failure (C15_remove_sig_reports_every_failure; IO_REMOVE_SIG_PROPAGATES regenerated); fault enumeration also on sessions that open an existing signed file and remove its signature.",
         note="Trusted: Coq kernel, translator (regex over the write functions), harness (fault-injecting Read+Write+Seek medium).",
         technique="Coq proof (induction over chunk lists for arbitrary schedules) + translator-pinned discipline + fault enumeration",
         design="4 C15"),
@@ -210,7 +210,7 @@ CLAIMED = {
              "new keys within the row and pool limits are accepted; below 65,535 pool entries interning never panics.  The one "
              "limit that is a panic (65,536th distinct string under two-byte references) is a known finding with a proved witness.  "
              "Correspondence: boundary scripts L-1/L/L+1 for columns, rows (batch, incremental, across reopen, after deletions), "
-             "strings, table and column name lengths.",
+             "strings, table and column name lengths.  Strings of 65,534..65,537 encoded bytes (the 16-bit length field of a pool entry) round-trip.",
         note="Trusted: Coq kernel, translator, extraction, harness; bulk boundary cases (>= 30,000 rows) are judged on the "
              "implementation only (the extracted model's list operations are quadratic).",
         technique="Coq proof (bounds through the insert path, finite witness by vm_compute) + boundary correspondence",
@@ -245,7 +245,7 @@ CLAIMED = {
              "catalog, streams and summary untouched; SELECT = filter then project; row shape.  The crux proved: conditions and "
              "kept rows are decoded under a pool from which earlier rows' strings were already released - sound only by exact "
              "accounting.  Correspondence: all operation sequences to depth 3/4 over an 11-operation alphabet on two tables incl. "
-             "reopen, random histories with random WHERE trees, Rows::len().",
+             "reopen, random histories with random WHERE trees, Rows::len().  Conditions given as a chain of with() calls: the chain is the conjunction, every restriction counts (WithChain.v, ChainOps.v: C03_delete_chain, C03_update_chain), that with() accumulates by `and` is regenerated from the source; the harness hands top-level conjunctions over as .with(a).with(b).",
         note="Trusted: Coq kernel, extraction, harness, the Python relational shadow used as oracle.",
         technique="Coq proof (refinement to a list-level relational model with loop invariants over the threaded pool) + correspondence",
         design="4 C03"),
